@@ -217,6 +217,52 @@ def show(x, depth=0):
     return "<%s>" % k
 
 
+def init_to_py(x):
+    """Convert an initialiser expression tree (or an evaluated `values`
+    object) into plain python: ints, strings, lists, dicts."""
+    if x is None:
+        return None
+    if isinstance(x, (int, float, str)):
+        return x
+    if isinstance(x, list):
+        return [init_to_py(i) for i in x]
+    if not isinstance(x, dict):
+        return None
+    if "k" not in x:
+        if set(x) == {"str"}:
+            return x["str"]
+        if set(x) == {"fn"} or set(x) == {"var"}:
+            return x
+        return {k: init_to_py(v) for k, v in x.items()}
+    x = strip_casts(x)
+    k = x.get("k")
+    if k == "str":
+        return x["v"]
+    v = int_value(x)
+    if v is not None:
+        return v
+    if k == "init":
+        names = [p[0] for p in x["fs"]]
+        if all(isinstance(n, int) for n in names):
+            return [init_to_py(p[1]) for p in x["fs"]]
+        return {p[0]: init_to_py(p[1]) for p in x["fs"]}
+    if k == "ref" and x.get("dk") == "fn":
+        return {"fn": x["n"]}
+    if k == "ref":
+        return {"var": x["n"]}
+    if k == "un" and x["op"] == "&":
+        return init_to_py(x["e"])
+    if k == "zero":
+        return 0
+    return None
+
+
+def table_py(t):
+    if t.get("values") is not None:
+        return init_to_py(t["values"])
+    return init_to_py(t.get("init"))
+
+
 ASSIGN_OPS = {"=", "+=", "-=", "*=", "/=", "%=", "<<=", ">>=", "&=", "|=", "^="}
 
 
